@@ -4,8 +4,9 @@ import MsPack.Chm.Encint
 
 `compare` (chmd.c) orders directory entries for the chunk search.  Proved: a name compares equal
 to itself, and ASCII letter case is ignored (for names of ASCII bytes; `towlower` is the C
-locale's).  Correctness of the quick-reference binary search and of the index descent is covered
-by the lookup oracle and model agreement, not yet by theorems.
+locale's).  The chain walk and `search_chunk` on a writer's directory are in `C15Find.lean`
+(`C15_fastfind_roundtrip`); the multi-group quick-reference binary search and the index descent are
+covered by the lookup oracle and model agreement, not yet by theorems.
 -/
 namespace MsPack.Chm
 open MsPack
